@@ -36,7 +36,9 @@ cm_unit = KaniUnit(
         H("c07_short_state_is_err", "bounded", "state vector shorter than the model => Err, no panic", bound="2 features"),
     ])
 vm_unit = VerusUnit('c07_costmodel', 'c07_costmodel', rlimit=30)
-rate = VerusUnit("c07_rate", "c07_rate", rlimit=30)
-UNITS = [cost_unit, vm_unit, rate]
+rw = KaniUnit("c07_rate_wit", CORE, modules=[dict(file=CORE + "/src/model/cost/vehicle/vehicle_cost_rate.rs", src="c07_rate_wit.rs")], harnesses=[])
+rw.native_witnesses = ["c07_wit_combined_rate_applies_members_in_order"]
+rate = VerusUnit("c07_rate", "c07_rate", rlimit=30, paired_kani=(rw, []))
+UNITS = [cost_unit, vm_unit, rate, rw]
 EXPLANATION = "contracts on the cost floor / clip functions (all f64), the cost model and the edge traversal split"
 NOT_DECIDED = "CostModel::new beyond two features"
